@@ -17,6 +17,7 @@
     from key-safety of ONE run that ends (`KeySafeEv.of_run`).
 -/
 import YtkProofs.ResolverNested
+import YtkProofs.ResolverRelex
 
 namespace Ytk.Resolver
 
@@ -199,6 +200,92 @@ theorem Ends.append_right {n : Nat} {s₁ s₂ : Toks} {seen : List Toks} {t : T
 
 end ends
 
+/-! ## `keySafe` is stable once the run has ended -/
+
+/-- with more fuel `keySafe` inspects the same sub-runs, provided the run has ended -/
+theorem keySafe_fuel_succ (tt : TTable2) :
+    ∀ (n : Nat) (t : Tmpl2) (st : List Toks), evalT2 tt n t st ≠ .outOfFuel →
+      keySafe tt (n + 1) t st = keySafe tt n t st := by
+  intro n
+  induction n with
+  | zero => intro t st h; exact absurd rfl h
+  | succ n ih =>
+    intro t st h
+    cases t with
+    | done => rfl
+    | lit a rest =>
+      simp only [evalT2] at h
+      simp only [keySafe]
+      exact ih rest st (prepend_ne_outOfFuel.mp h)
+    | ph key rest =>
+      simp only [evalT2] at h
+      simp only [keySafe]
+      by_cases hc : st.contains (render2 key) = true
+      · simp only [hc, if_true]
+      · simp only [hc] at h ⊢
+        cases e1 : evalT2 tt n key (st ++ [render2 key]) with
+        | outOfFuel => simp [e1] at h
+        | cycle o =>
+          rw [ih key _ (by rw [e1]; simp), evalT2_fuel_succ tt n key _ (by rw [e1]; simp), e1]
+        | ok k' =>
+          rw [ih key _ (by rw [e1]; simp), evalT2_fuel_succ tt n key _ (by rw [e1]; simp), e1]
+          simp only [e1] at h ⊢
+          cases hg : tt.get k' with
+          | none =>
+            simp only [hg] at h ⊢
+            rw [ih rest st (prepend_ne_outOfFuel.mp h)]
+          | some v =>
+            simp only [hg] at h ⊢
+            cases e2 : evalT2 tt n v (st ++ [render2 key]) with
+            | outOfFuel => simp [e2] at h
+            | cycle o =>
+              rw [ih v _ (by rw [e2]; simp), evalT2_fuel_succ tt n v _ (by rw [e2]; simp), e2]
+            | ok v' =>
+              rw [ih v _ (by rw [e2]; simp), evalT2_fuel_succ tt n v _ (by rw [e2]; simp), e2]
+              simp only [e2] at h ⊢
+              rw [ih rest st (prepend_ne_outOfFuel.mp h)]
+    | phd key d rest =>
+      simp only [evalT2] at h
+      simp only [keySafe]
+      by_cases hc : st.contains (rawD2 key d) = true
+      · simp only [hc, if_true]
+      · simp only [hc] at h ⊢
+        cases e1 : evalT2 tt n key (st ++ [rawD2 key d]) with
+        | outOfFuel => simp [e1] at h
+        | cycle o =>
+          rw [ih key _ (by rw [e1]; simp), evalT2_fuel_succ tt n key _ (by rw [e1]; simp), e1]
+        | ok k' =>
+          rw [ih key _ (by rw [e1]; simp), evalT2_fuel_succ tt n key _ (by rw [e1]; simp), e1]
+          simp only [e1] at h ⊢
+          cases e3 : evalT2 tt n d (st ++ [rawD2 key d]) with
+          | outOfFuel => simp [e3] at h
+          | cycle o =>
+            rw [ih d _ (by rw [e3]; simp), evalT2_fuel_succ tt n d _ (by rw [e3]; simp), e3]
+          | ok d' =>
+            rw [ih d _ (by rw [e3]; simp), evalT2_fuel_succ tt n d _ (by rw [e3]; simp), e3]
+            simp only [e3] at h ⊢
+            cases hg : tt.get k' with
+            | none =>
+              simp only [hg] at h ⊢
+              rw [ih rest st (prepend_ne_outOfFuel.mp h)]
+            | some v =>
+              simp only [hg] at h ⊢
+              cases e2 : evalT2 tt n v (st ++ [rawD2 key d]) with
+              | outOfFuel => simp [e2] at h
+              | cycle o =>
+                rw [ih v _ (by rw [e2]; simp), evalT2_fuel_succ tt n v _ (by rw [e2]; simp), e2]
+              | ok v' =>
+                rw [ih v _ (by rw [e2]; simp), evalT2_fuel_succ tt n v _ (by rw [e2]; simp), e2]
+                simp only [e2] at h ⊢
+                rw [ih rest st (prepend_ne_outOfFuel.mp h)]
+
+theorem keySafe_fuel_mono (tt : TTable2) {n m : Nat} (hnm : n ≤ m) (t : Tmpl2) (st : List Toks)
+    (h : evalT2 tt n t st ≠ .outOfFuel) : keySafe tt m t st = keySafe tt n t st := by
+  induction hnm with
+  | refl => rfl
+  | step hle ih =>
+    rw [keySafe_fuel_succ tt _ t st (by rw [evalT2_fuel_mono tt hle t st h]; exact h), ih]
+
 /-! ## key-safety, independent of the fuel -/
 
 /-- the run of the evaluator on `t` with stack `st` is key-safe for every sufficiently large fuel
@@ -213,6 +300,11 @@ variable {tt : TTable2} {st : List Toks}
 
 theorem KeySafeEv.of_all {t : Tmpl2} (h : ∀ m, keySafe tt m t st = true) : KeySafeEv tt t st :=
   ⟨0, fun m _ => h m⟩
+
+/-- ONE key-safe run that ends is enough: every larger fuel repeats it -/
+theorem KeySafeEv.of_run {t : Tmpl2} {n : Nat} (h : evalT2 tt n t st ≠ .outOfFuel)
+    (hk : keySafe tt n t st = true) : KeySafeEv tt t st :=
+  ⟨n, fun m hm => by rw [keySafe_fuel_mono tt hm t st h]; exact hk⟩
 
 theorem KeySafeEv.of_static (hS : tt.KeySafe) {t : Tmpl2} (hk : t.KeysOK) : KeySafeEv tt t st :=
   ⟨0, fun m _ => keySafe_of_static hS m t st hk⟩
@@ -510,5 +602,38 @@ theorem resolves_iff_evalT2 {tt : TTable2} (hT : tt.WF) (t : Tmpl2) (st : List T
     exact ⟨m, this.unique ⟨n, hn, hne⟩, hne⟩
   · rintro ⟨m, hm, hne⟩
     exact (evalT2_refines_ev hT ht hks hm hne).1
+
+/-! ## consequences: termination of the evaluator; the real `norm` -/
+
+/-- rendered templates are delimiter-balanced, hence so is every value of a template table -/
+theorem toTable2_balanced {tt : TTable2} (hT : tt.WF) : ∀ kv ∈ toTable2 tt, Balanced kv.2 := by
+  intro kv hkv
+  obtain ⟨kv', hkv', rfl⟩ := List.mem_map.mp hkv
+  exact balanced_render2 (hT kv' hkv').2
+
+/-- the evaluator ENDS on every key-safe run over a well-formed table (the resolver does, on every
+    balanced table, and the evaluator ends whenever the resolver does) -/
+theorem evalT2_terminates {tt : TTable2} (hT : tt.WF) {t : Tmpl2} {st : List Toks} (ht : t.WF)
+    (hks : KeySafeEv tt t st) :
+    ∃ r, (∃ m, evalT2 tt m t st = r ∧ r ≠ .outOfFuel) ∧
+      Resolves id (toTable2 tt) (render2 t) st r := by
+  obtain ⟨r, hr⟩ := resolves_balanced (toTable2 tt) (toTable2_balanced hT) (render2 t) st
+  exact ⟨r, (resolves_iff_evalT2 hT t st ht hks r).mp hr, hr⟩
+
+/-- from some fuel on the evaluator gives the result it ends with -/
+theorem evalT2_eventually {tt : TTable2} {t : Tmpl2} {st : List Toks} {m : Nat} {r : Res}
+    (e : evalT2 tt m t st = r) (hne : r ≠ .outOfFuel) : ∀ k, m ≤ k → evalT2 tt k t st = r :=
+  fun k hk => by rw [evalT2_fuel_mono tt hk t st (by rw [e]; exact hne), e]
+
+/-- on clean tables and inputs the big-step reading does not depend on the re-lexing -/
+theorem resolves_relex_iff_id {d : Delims} (hd : d.LexOK) {tbl : Table}
+    (hc : ∀ kv ∈ tbl, Over (CleanTok d) kv.2) {s : Toks} (hs : Over (CleanTok d) s)
+    (seen : List Toks) (r : Res) :
+    Resolves (relex d) tbl s seen r ↔ Resolves id tbl s seen r := by
+  constructor
+  · rintro ⟨n, hn, hne⟩
+    exact ⟨n, by rw [← resolve_relex_eq_id hd hc n s seen hs]; exact hn, hne⟩
+  · rintro ⟨n, hn, hne⟩
+    exact ⟨n, by rw [resolve_relex_eq_id hd hc n s seen hs]; exact hn, hne⟩
 
 end Ytk.Resolver
